@@ -1073,3 +1073,527 @@ fn floattext_stream(driver: &Driver, maxlen: usize) -> Stream {
     compare(driver, &mut st, &reqs);
     st
 }
+
+// ---------------------------------------------------------------------------------------------------
+// renderings
+
+pub struct RCase {
+    /// `val` | `ind` | `seq`
+    pub mode: &'static str,
+    /// for `seq`: `Val::Arr(values)`
+    pub value: Val,
+    pub tape: Vec<u64>,
+    pub tail: Vec<u8>,
+    pub id: (u64, u64),
+    pub lens: LenMap,
+    pub text: Vec<u8>,
+    /// own text of every object (`val`, `ind`: the value's)
+    pub spans: Vec<(usize, usize)>,
+    pub endobj_end: usize,
+    pub stats: RenderStats,
+}
+
+pub fn render_case(mode: &'static str, value: Val, tape: &mut Tape, tail: &[u8], id: (u64, u64), lens: LenMap) -> RCase {
+    let (text, spans, endobj_end) = match mode {
+        "ind" => {
+            let r = render_indirect(id.0, id.1, &value, tail, tape);
+            (r.bytes, vec![(r.val_start, r.val_end)], r.endobj_end)
+        }
+        "seq" => {
+            let vs = match &value { Val::Arr(vs) => vs.clone(), _ => vec![] };
+            let (b, sp) = render_seq(&vs, tail, tape);
+            (b, sp, 0)
+        }
+        _ => {
+            let (b, e) = render_with_tail(&value, tail, tape);
+            (b, vec![(0, e)], 0)
+        }
+    };
+    RCase { mode, value, tape: tape.consumed().to_vec(), tail: tail.to_vec(), id, lens, text, spans, endobj_end, stats: tape.stats.clone() }
+}
+
+/// renders with a tape that grows from `rng`; now and then with a tape that runs out early
+pub fn render_random(rng: &mut Rng, mode: &'static str, value: Val, tail: &[u8], id: (u64, u64), lens: LenMap) -> RCase {
+    let mut tape = Tape::lazy(Rng::new(rng.next()));
+    let c = render_case(mode, value, &mut tape, tail, id, lens);
+    if rng.chance(1, 25) && !c.tape.is_empty() {
+        let keep = rng.usize(c.tape.len());
+        let mut short = Tape::fixed(c.tape[..keep].to_vec());
+        let mut d = render_case(mode, c.value, &mut short, tail, id, c.lens);
+        d.tape = c.tape[..keep].to_vec();
+        return d;
+    }
+    c
+}
+
+pub fn render_request(c: &RCase) -> String {
+    match c.mode {
+        "ind" => format!("c03.render ind {} {} {} {} {}", show_val(&c.value), show_tape(&c.tape), hex(&c.tail), c.id.0, c.id.1),
+        "seq" => format!("c03.render seq {} {} {}", show_val(&c.value), show_tape(&c.tape), hex(&c.tail)),
+        _ => format!("c03.render val {} {} {}", show_val(&c.value), show_tape(&c.tape), hex(&c.tail)),
+    }
+}
+
+fn len_bucket(n: usize) -> &'static str {
+    match n { 0..=7 => "len=0-7", 8..=31 => "len=8-31", 32..=127 => "len=32-127", 128..=511 => "len=128-511", _ => "len=512+" }
+}
+
+fn count_render(st: &mut Stream, c: &RCase) {
+    st.count(&format!("mode={}", c.mode));
+    st.count(len_bucket(c.text.len()));
+    st.count(&format!("tail={}", String::from_utf8_lossy(&c.tail).replace('\n', "\\n")));
+}
+
+fn count_oracle(or: &mut Oracle, c: &RCase) {
+    let mut ks = vec![];
+    count_kinds(&c.value, &mut |k| ks.push(k.to_string()));
+    for k in ks { or.count(&format!("kind={}", k)); }
+    or.count(&format!("nest={}", nest(&c.value)));
+    or.count(&format!("tail={}", String::from_utf8_lossy(&c.tail).replace('\n', "\\n")));
+    or.count(len_bucket(c.text.len()));
+    *or.histogram.entry("gaps".into()).or_insert(0) += c.stats.gaps;
+    *or.histogram.entry("gaps.empty".into()).or_insert(0) += c.stats.gaps_empty;
+    *or.histogram.entry("gaps.forced-single-space".into()).or_insert(0) += c.stats.gaps_forced;
+    *or.histogram.entry("gaps.with-comment".into()).or_insert(0) += c.stats.gaps_comment;
+    *or.histogram.entry("strings.hex".into()).or_insert(0) += c.stats.str_hex;
+    *or.histogram.entry("strings.literal".into()).or_insert(0) += c.stats.str_lit;
+}
+
+/// one parse case derived from a rendering
+struct PCase {
+    c: RCase,
+    pmode: &'static str,
+    buf: Vec<u8>,
+    pos: usize,
+    flags: u16,
+    off: usize,
+    allowed: bool,
+}
+
+fn gen_pcase(seed: u64, case: u64) -> PCase {
+    let mut rng = Rng::derive(seed, "c03.parse", case);
+    let cfg = GenCfg { bad_name_pct: 2, wild_names: false };
+    let tail: &[u8] = *rng.pick(&TAILS);
+    let id = (if rng.chance(1, 10) { *rng.pick(&[0u64, u64::MAX, u32::MAX as u64]) } else { rng.below(1000) }, if rng.chance(1, 6) { rng.below(70000) } else { 0 });
+    let r = rng.below(100);
+    let (c, pmode): (RCase, &'static str) = if r < 55 {
+        let v = gen_val(&mut rng, 0, &cfg);
+        (render_random(&mut rng, "val", v, tail, id, vec![]), "plain")
+    } else if r < 60 {
+        let levels = *rng.pick(&[19usize, 20, 21]);
+        let v = gen_deep(&mut rng, levels, &cfg);
+        if rng.chance(1, 2) { (render_random(&mut rng, "val", v, tail, id, vec![]), "plain") } else { (render_random(&mut rng, "ind", v, tail, id, vec![]), "ind0") }
+    } else if r < 80 {
+        let v = gen_val(&mut rng, 0, &cfg);
+        (render_random(&mut rng, "ind", v, tail, id, vec![]), if rng.chance(1, 2) { "ind0" } else { "ind1" })
+    } else if r < 92 {
+        let (v, lens) = gen_stream(&mut rng, &cfg, true);
+        (render_random(&mut rng, "ind", v, tail, id, lens), if rng.chance(1, 2) { "ind0" } else { "ind1" })
+    } else {
+        let (v, lens) = gen_stream(&mut rng, &cfg, true);
+        (render_random(&mut rng, "val", v, tail, id, lens), "stm")
+    };
+    let npre = if pmode == "stm" { 0 } else { rng.usize(6) };
+    let mut buf = rng.bytes(npre);
+    buf.extend_from_slice(&c.text);
+    let off = if pmode != "stm" && rng.chance(1, 4) { 1 + rng.usize(1000) } else { 0 };
+    let own = flag_of(&c.value);
+    let (flags, allowed) = match rng.below(20) {
+        0..=13 => (1023u16, true),
+        14..=16 => (own | (rng.below(1024) as u16), true),
+        _ => ((rng.below(1024) as u16) & !own, false),
+    };
+    let (flags, allowed) = if pmode == "stm" { (1023, true) } else { (flags, allowed) };
+    PCase { c, pmode, buf, pos: npre, flags, off, allowed }
+}
+
+fn pcase_request(p: &PCase) -> String {
+    parse_request(p.pmode, &p.buf, p.pos, p.flags, p.off, &p.c.lens, if p.pmode == "stm" { Some(p.c.id) } else { None })
+}
+
+/// the oracle of C03 on one parsed rendering: `None` = holds, else (signature, what)
+fn check_denotes(exp: &Val, exp_id: Option<(u64, u64)>, exp_cursor: Option<usize>, got: &Parsed, buf: &[u8], off: usize, forms: &[(Vec<u8>, bool)], wrapper: &str) -> Option<(String, String)> {
+    if got.text == "panic" {
+        return Some(("panic".into(), "the parser panicked on a conformant spelling".into()));
+    }
+    let gv = match &got.val {
+        Some(v) => v,
+        None => {
+            if has_non_utf8_name(exp) {
+                return Some(("name-not-utf8".into(), "a conformant spelling with a name that is not UTF-8 after #xx decoding is rejected".into()));
+            }
+            let k = match exp { Val::Str(s) => str_kind(s, &DiffCtx { identify_numbers: false, buf, file_off: off, id: None, forms }), v => kind_name(v).to_string() };
+            let k = if wrapper.is_empty() || matches!(exp, Val::StreamPending(..)) { k } else { k };
+            return Some((k, format!("a conformant spelling of a {} is rejected (Err)", kind_name(exp))));
+        }
+    };
+    let cx = DiffCtx { identify_numbers: false, buf, file_off: off, id: exp_id, forms };
+    if let Some(k) = diff_kind(exp, gv, &cx) {
+        return Some((k.clone(), format!("the value read differs from the value printed (first difference: {})", k)));
+    }
+    if let (Some(e), Some(g)) = (exp_id, got.id) {
+        if e != g {
+            return Some(("indirect".into(), format!("object id read as {}.{}, printed {}.{}", g.0, g.1, e.0, e.1)));
+        }
+    }
+    if let Some(c) = exp_cursor {
+        if got.pos != c {
+            return Some(("cursor".into(), format!("the cursor rests at {} but the text ends at {}", got.pos, c)));
+        }
+    }
+    None
+}
+
+fn parse_streams(driver: &Driver, seed: u64, from: u64, to: u64, render_st: &mut Stream) -> (Vec<Stream>, Oracle) {
+    let mut st = Stream::new("c03.parse", true);
+    let mut deep = Stream::new("c03.parse.deep", false);
+    let mut or = Oracle::new("c03.denotes");
+    let mut rreqs = vec![];
+    let mut rimps = vec![];
+    let mut preqs = vec![];
+    let mut pimps = vec![];
+    let mut pdeep = vec![];
+    for case in from..to {
+        let p = gen_pcase(seed, case);
+        count_render(render_st, &p.c);
+        rreqs.push(render_request(&p.c));
+        rimps.push(hex(&p.c.text));
+        let got = imp_parse(p.pmode, &p.buf, p.pos, p.flags, p.off, &p.c.lens, Some(p.c.id));
+        let too_deep = nest(&p.c.value) > 20;
+        let s = if too_deep { &mut deep } else { &mut st };
+        s.count(&format!("mode={}", p.pmode));
+        s.count(&format!("flags={}", if p.flags == 1023 { "any" } else if p.allowed { "restricted-allowed" } else { "restricted-disallowed" }));
+        s.count(&format!("top={}", kind_name(&p.c.value)));
+        if p.off != 0 { s.count("file-offset=nonzero"); }
+        if !too_deep && p.allowed {
+            count_oracle(&mut or, &p.c);
+            or.count(&format!("mode={}", p.pmode));
+            or.count(&format!("outcome={}", got.text.split(' ').next().unwrap_or("")));
+            let exp_cursor = match p.pmode { "plain" => Some(p.pos + p.c.spans[0].1), "stm" => None, _ => Some(p.pos + p.c.endobj_end) };
+            let exp_id = if p.pmode == "plain" { None } else { Some(p.c.id) };
+            let key = format!("{} {}", p.pmode, hex(&p.buf));
+            or.case(&key, true, || json!({"mode": p.pmode, "value": show_val(&p.c.value), "text": String::from_utf8_lossy(&p.c.text), "got": got.text}));
+            if let Some((sig, what)) = check_denotes(&p.c.value, exp_id, exp_cursor, &got, &p.buf, p.off, &p.c.stats.forms, p.pmode) {
+                or.fail(&sig, &what, json!({"stream": "c03.parse", "seed": seed, "case": case, "mode": p.pmode, "value": show_val(&p.c.value), "tape": show_tape(&p.c.tape),
+                    "tail": hex(&p.c.tail), "buffer": hex(&p.buf), "pos": p.pos, "flags": p.flags, "file_offset": p.off, "lens": show_lens(&p.c.lens),
+                    "expected": format!("{} cursor {:?}", show_canon(&p.c.value), exp_cursor), "got": got.text, "text": String::from_utf8_lossy(&p.buf)}));
+            }
+        }
+        preqs.push(pcase_request(&p));
+        pimps.push(got.text);
+        pdeep.push(too_deep);
+    }
+    let resp = driver.ask(&rreqs);
+    for ((rq, m), i) in rreqs.iter().zip(resp.iter()).zip(rimps.iter()) {
+        render_st.case(rq, m, i, true);
+    }
+    let resp = driver.ask(&preqs);
+    for (((rq, m), i), d) in preqs.iter().zip(resp.iter()).zip(pimps.iter()).zip(pdeep.iter()) {
+        let mode = rq.split(' ').nth(1).unwrap_or("");
+        let m = canon_parse_answer(mode, m);
+        let s = if *d { &mut deep } else { &mut st };
+        s.count(&format!("outcome={}", m.split(' ').next().unwrap_or("")));
+        s.case(rq, &m, i, true);
+    }
+    (vec![st, deep], or)
+}
+
+fn gen_seq_case(seed: u64, case: u64) -> (RCase, Vec<u8>, usize) {
+    let mut rng = Rng::derive(seed, "c03.seq", case);
+    let cfg = GenCfg { bad_name_pct: 2, wild_names: false };
+    let n = 2 + rng.usize(5);
+    let vs: Vec<Val> = (0..n).map(|_| gen_val(&mut rng, 1, &cfg)).collect();
+    let tail: &[u8] = *rng.pick(&TAILS);
+    let c = render_random(&mut rng, "seq", Val::Arr(vs), tail, (0, 0), vec![]);
+    let npre = rng.usize(6);
+    let mut buf = rng.bytes(npre);
+    buf.extend_from_slice(&c.text);
+    (c, buf, npre)
+}
+
+/// parses `exp.len()` values one after the other; (signature, what) of the first deviation
+fn run_sequence(buf: &[u8], start: usize, exp: &[Val], spans: &[(usize, usize)], forms: &[(Vec<u8>, bool)], reqs: &mut Vec<String>, imps: &mut Vec<String>) -> Option<(String, String)> {
+    let mut pos = start;
+    for (i, v) in exp.iter().enumerate() {
+        let got = imp_parse("plain", buf, pos, 1023, 0, &vec![], None);
+        reqs.push(parse_request("plain", buf, pos, 1023, 0, &vec![], None));
+        imps.push(got.text.clone());
+        if let Some((sig, what)) = check_denotes(v, None, Some(start + spans[i].1), &got, buf, 0, forms, "") {
+            return Some((sig, format!("object {} of the sequence (read from {}): {}", i, pos, what)));
+        }
+        pos = got.pos;
+    }
+    None
+}
+
+fn seq_streams(driver: &Driver, seed: u64, from: u64, to: u64, render_st: &mut Stream) -> (Stream, Oracle) {
+    let mut st = Stream::new("c03.seq", true);
+    let mut or = Oracle::new("c03.sequence");
+    let (mut rreqs, mut rimps, mut preqs, mut pimps) = (vec![], vec![], vec![], vec![]);
+    for case in from..to {
+        let (c, buf, start) = gen_seq_case(seed, case);
+        count_render(render_st, &c);
+        rreqs.push(render_request(&c));
+        rimps.push(hex(&c.text));
+        let vs = match &c.value { Val::Arr(vs) => vs.clone(), _ => vec![] };
+        count_oracle(&mut or, &c);
+        or.count(&format!("objects={}", vs.len()));
+        let r = run_sequence(&buf, start, &vs, &c.spans, &c.stats.forms, &mut preqs, &mut pimps);
+        or.case(&hex(&buf), true, || json!({"values": show_val(&c.value), "text": String::from_utf8_lossy(&c.text)}));
+        if let Some((sig, what)) = r {
+            or.fail(&sig, &what, json!({"stream": "c03.seq", "seed": seed, "case": case, "value": show_val(&c.value), "tape": show_tape(&c.tape), "tail": hex(&c.tail),
+                "buffer": hex(&buf), "pos": start, "expected": format!("{} ends {:?}", show_canon(&c.value), c.spans.iter().map(|s| s.1 + start).collect::<Vec<_>>()), "got": pimps.last().cloned().unwrap_or_default(),
+                "text": String::from_utf8_lossy(&buf)}));
+        }
+    }
+    let resp = driver.ask(&rreqs);
+    for ((rq, m), i) in rreqs.iter().zip(resp.iter()).zip(rimps.iter()) {
+        render_st.case(rq, m, i, true);
+    }
+    let resp = driver.ask(&preqs);
+    for ((rq, m), i) in preqs.iter().zip(resp.iter()).zip(pimps.iter()) {
+        let m = canon_parse_answer("plain", m);
+        st.count(&format!("outcome={}", m.split(' ').next().unwrap_or("")));
+        st.case(rq, &m, i, true);
+    }
+    (st, or)
+}
+
+pub fn mutate(rng: &mut Rng, buf: &mut Vec<u8>) {
+    let k = 1 + rng.usize(3);
+    for _ in 0..k {
+        if buf.is_empty() { buf.push(rng.byte()); continue; }
+        let at = rng.usize(buf.len());
+        match rng.below(5) {
+            0 => buf[at] ^= 1 << rng.below(8),
+            1 => { buf.remove(at); }
+            2 => buf.insert(at, *rng.pick(b"()<>[]/% \n\r\\#0179R.-+")),
+            3 => buf.truncate(at),
+            _ => buf[at] = rng.byte(),
+        }
+    }
+}
+
+fn mutated_stream(driver: &Driver, seed: u64, n: u64) -> Stream {
+    let mut st = Stream::new("c03.parse.mutated", false);
+    let mut reqs = vec![];
+    for case in 0..n {
+        let mut rng = Rng::derive(seed, "c03.parse.mutated", case);
+        let cfg = GenCfg { bad_name_pct: 2, wild_names: false };
+        let tail: &[u8] = *rng.pick(&TAILS);
+        let (c, mode): (RCase, &'static str) = match rng.below(4) {
+            0 | 1 => { let v = gen_val(&mut rng, 0, &cfg); (render_random(&mut rng, "val", v, tail, (1, 0), vec![]), "plain") }
+            2 => { let v = gen_val(&mut rng, 0, &cfg); (render_random(&mut rng, "ind", v, tail, (7, 0), vec![]), if rng.chance(1, 2) { "ind0" } else { "ind1" }) }
+            _ => { let (v, lens) = gen_stream(&mut rng, &cfg, true); (render_random(&mut rng, "ind", v, tail, (7, 0), lens), if rng.chance(1, 2) { "ind0" } else { "ind1" }) }
+        };
+        let mut buf = c.text.clone();
+        mutate(&mut rng, &mut buf);
+        st.count(&format!("mode={}", mode));
+        reqs.push(parse_request(mode, &buf, 0, 1023, 0, &c.lens, None));
+    }
+    compare(driver, &mut st, &reqs);
+    st
+}
+
+fn gen_str_case(seed: u64, case: u64) -> (Vec<u8>, bool, Vec<u8>, usize, usize) {
+    let mut rng = Rng::derive(seed, "c03.str", case);
+    let mut s = gen_string(&mut rng);
+    if rng.chance(1, 8) { for _ in 0..3 { s.extend(gen_string(&mut rng)); } }
+    let is_hex = rng.chance(1, 3);
+    let mut tape = Tape::lazy(Rng::new(rng.next()));
+    let tok = if is_hex { hex_str_tok(&s, &mut tape) } else { lit_str_tok(&s, &mut tape) };
+    let npre = rng.usize(4);
+    let mut buf = rng.bytes(npre);
+    buf.extend_from_slice(&tok);
+    let end = buf.len();
+    let ntail = rng.usize(7);
+    buf.extend((0..ntail).map(|_| *rng.pick(b")(>< \n\\07a\xff")));
+    (s, is_hex, buf, npre + 1, end)
+}
+
+fn str_streams(driver: &Driver, seed: u64, from: u64, to: u64, njunk: u64, or: &mut Oracle) -> Vec<Stream> {
+    let mut st = Stream::new("c03.str", true);
+    let mut junk = Stream::new("c03.str.junk", false);
+    let mut reqs = vec![];
+    for case in from..to {
+        let (s, is_hex, buf, pos, end) = gen_str_case(seed, case);
+        st.count(if is_hex { "form=hex" } else { "form=literal" });
+        let rq = format!("{} {} {}", if is_hex { "c03.hexstr" } else { "c03.litstr" }, hex(&buf), pos);
+        let got = if is_hex { imp_hexstr(&buf, pos) } else { imp_litstr(&buf, pos) };
+        let exp = format!("ok {} {}", hex(&s), end);
+        or.count(if is_hex { "string-lexer=hex" } else { "string-lexer=literal" });
+        or.case(&rq, true, || json!({"string": hex(&s), "text": String::from_utf8_lossy(&buf), "got": got}));
+        if got != exp {
+            or.fail(if got == "panic" { "panic" } else if is_hex { "string-hex" } else { "string-literal" }, "the string lexer does not give back the bytes that were spelled (or stops elsewhere)",
+                json!({"stream": "c03.str", "seed": seed, "case": case, "value": show_val(&Val::Str(s.clone())), "buffer": hex(&buf), "pos": pos, "expected": exp, "got": got}));
+        }
+        reqs.push(rq);
+    }
+    compare(driver, &mut st, &reqs);
+    let mut reqs = vec![];
+    for case in 0..njunk {
+        let mut rng = Rng::derive(seed, "c03.str.junk", case);
+        let is_hex = rng.chance(1, 3);
+        let mut buf = vec![];
+        if rng.chance(1, 2) {
+            let (_, h, b, _, _) = gen_str_case(seed ^ 0x5555, case);
+            if h == is_hex { buf = b; mutate(&mut rng, &mut buf); }
+        }
+        if buf.is_empty() {
+            for _ in 0..rng.usize(12) {
+                if is_hex { buf.push(*rng.pick(b"0123456789abcdefABCDEF> \n\r\t\x0c\x00gG<x")); } else { buf.extend_from_slice(*rng.pick(&[&b"\\"[..], b"(", b")", b"\r", b"\n", b"\\\r", b"\\\n", b"7", b"8", b"0", b"a", b"\\12", b"\\777", b"\xff", b"n"])); }
+            }
+        }
+        let pos = rng.usize(buf.len().min(3) + 1);
+        junk.count(if is_hex { "form=hex" } else { "form=literal" });
+        reqs.push(format!("{} {} {}", if is_hex { "c03.hexstr" } else { "c03.litstr" }, hex(&buf), pos));
+    }
+    compare(driver, &mut junk, &reqs);
+    vec![st, junk]
+}
+
+// ---------------------------------------------------------------------------------------------------
+// deterministic witnesses (run first on every run, independent of the seed)
+
+struct Wit {
+    name: &'static str,
+    buf: &'static [u8],
+    /// `plain` | `ind0` | `seq`
+    mode: &'static str,
+    exp: Vec<Val>,
+    /// cursor after every object
+    ends: Vec<usize>,
+}
+
+fn n(s: &str) -> Val { Val::Name(s.as_bytes().to_vec()) }
+fn s(b: &[u8]) -> Val { Val::Str(b.to_vec()) }
+
+fn denotes_witnesses() -> Vec<Wit> {
+    let w = |name, buf: &'static [u8], exp: Val| Wit { name, buf, mode: "plain", exp: vec![exp], ends: vec![buf.len()] };
+    vec![
+        // (a) the open finding
+        w("open: name that is not UTF-8", b"/#ff", Val::Name(vec![0xff])),
+        w("open: key that is not UTF-8", b"<< /#ff 1 >>", Val::Dict(vec![(vec![0xff], Val::Int(1))])),
+        // (b) regression witnesses of repaired defects
+        w("+17", b"+17", Val::Int(17)),
+        w("+.5", b"+.5", Val::Real("0.5".into())),
+        w("comment ended by CR", b"% c\r5", Val::Int(5)),
+        w("backslash before a plain character", b"(\\q)", s(b"q")),
+        w("raw CR in a string", b"(a\rb)", s(b"a\nb")),
+        w("raw CR LF in a string", b"(a\r\nb)", s(b"a\nb")),
+        w("continuation then raw CR", b"(a\\\n\rb)", s(b"a\nb")),
+        w("NUL inside a hex string", b"<4\x001>", s(b"\x41")),
+        Wit { name: "comment between dictionary and stream keyword", buf: b"1 0 obj << /Length 3 >> % c\nstream\nabc\nendstream endobj", mode: "ind0",
+              exp: vec![Val::StreamPending(vec![(b"Length".to_vec(), Val::Int(3))], b"abc".to_vec())], ends: vec![54] },
+        w("#20 in a key", b"<< /A#20B 1 >>", Val::Dict(vec![(b"A B".to_vec(), Val::Int(1))])),
+        w("integer at the end of the buffer", b"5", Val::Int(5)),
+        w("integers before a reference", b"[1 2 3 0 R]", Val::Arr(vec![Val::Int(1), Val::Int(2), Val::Ref(3, 0)])),
+        w("no white-space at all", b"[/A/B(x)<41>[1]<</K/V>>]", Val::Arr(vec![n("A"), n("B"), s(b"x"), s(b"A"), Val::Arr(vec![Val::Int(1)]), Val::Dict(vec![(b"K".to_vec(), n("V"))])])),
+    ]
+}
+
+fn sequence_witnesses() -> Vec<Wit> {
+    vec![
+        Wit { name: "open: name that is not UTF-8 in a sequence", buf: b"/#ff 1", mode: "seq", exp: vec![Val::Name(vec![0xff]), Val::Int(1)], ends: vec![4, 6] },
+        Wit { name: "form feed between integers", buf: b"1\x0c2", mode: "seq", exp: vec![Val::Int(1), Val::Int(2)], ends: vec![1, 3] },
+        Wit { name: "integers before a reference", buf: b"1 2 3 0 R", mode: "seq", exp: vec![Val::Int(1), Val::Int(2), Val::Ref(3, 0)], ends: vec![1, 3, 9] },
+        Wit { name: "no white-space at all", buf: b"/A/B(x)<41>[1]<</K/V>>", mode: "seq",
+              exp: vec![n("A"), n("B"), s(b"x"), s(b"A"), Val::Arr(vec![Val::Int(1)]), Val::Dict(vec![(b"K".to_vec(), n("V"))])], ends: vec![2, 4, 7, 11, 14, 22] },
+        Wit { name: "integer then end of buffer", buf: b"7 5", mode: "seq", exp: vec![Val::Int(7), Val::Int(5)], ends: vec![1, 3] },
+    ]
+}
+
+fn run_witnesses(or: &mut Oracle, wits: &[Wit], stream: &str, only: Option<u64>) {
+    for (idx, w) in wits.iter().enumerate() {
+        if only.map(|c| c != idx as u64).unwrap_or(false) { continue; }
+        or.count("witness");
+        let forms: Vec<(Vec<u8>, bool)> = vec![];
+        let mut got_text = String::new();
+        let res = match w.mode {
+            "seq" => {
+                let spans: Vec<(usize, usize)> = w.ends.iter().map(|e| (0, *e)).collect();
+                let (mut rq, mut im) = (vec![], vec![]);
+                let r = run_sequence(w.buf, 0, &w.exp, &spans, &forms, &mut rq, &mut im);
+                got_text = im.join(" | ");
+                r
+            }
+            m => {
+                let got = imp_parse(m, w.buf, 0, 1023, 0, &vec![], None);
+                got_text = got.text.clone();
+                let id = if m == "plain" { None } else { Some((1, 0)) };
+                check_denotes(&w.exp[0], id, Some(w.ends[0]), &got, w.buf, 0, &forms, m)
+            }
+        };
+        or.case(&format!("witness {}", w.name), true, || json!({"witness": w.name, "text": String::from_utf8_lossy(w.buf), "got": got_text}));
+        if let Some((sig, what)) = res {
+            or.fail(&sig, &format!("witness '{}': {}", w.name, what), json!({"stream": stream, "seed": 0, "case": idx, "witness": w.name, "buffer": hex(w.buf),
+                "expected": format!("{} ends {:?}", w.exp.iter().map(show_canon).collect::<Vec<_>>().join(" "), w.ends), "got": got_text, "text": String::from_utf8_lossy(w.buf)}));
+        }
+    }
+}
+
+// ---------------------------------------------------------------------------------------------------
+
+pub fn run(driver: &Driver, seed: u64, thorough: bool, replay: Option<&Value>) -> Report {
+    let mut rep = Report::new("C03");
+    if std::env::var("PDFVERIF_DEBUG").is_ok() { std::panic::set_hook(Box::new(|i| { if let Some(l) = i.location() { if l.file().starts_with("src/") { eprintln!("PANIC {}", i); } } })); }
+    let mut render_st = Stream::new("c03.render", true);
+    if let Some(r) = replay {
+        let seed = r["seed"].as_u64().unwrap_or(seed);
+        let case = r["case"].as_u64().unwrap_or(0);
+        let stream = r["stream"].as_str().unwrap_or("");
+        if let Some(req) = r["disagreement"]["request"].as_str() {
+            // a stored disagreement: the same request to both sides
+            let mut st = Stream::new(stream, true);
+            let resp = driver.ask(&[req.to_string()]);
+            let (m, i) = both_sides(req, &resp[0]);
+            st.case(req, &m, &i, true);
+            rep.streams.push(st);
+            return rep;
+        }
+        match stream {
+            "c03.witness.denotes" => { let mut or = Oracle::new("c03.denotes"); run_witnesses(&mut or, &denotes_witnesses(), stream, Some(case)); rep.oracles.push(or); }
+            "c03.witness.sequence" => { let mut or = Oracle::new("c03.sequence"); run_witnesses(&mut or, &sequence_witnesses(), stream, Some(case)); rep.oracles.push(or); }
+            "c03.seq" => { let (st, or) = seq_streams(driver, seed, case, case + 1, &mut render_st); rep.streams.push(st); rep.oracles.push(or); rep.streams.push(render_st); }
+            "c03.str" => { let mut or = Oracle::new("c03.denotes"); let sts = str_streams(driver, seed, case, case + 1, 0, &mut or); rep.streams.extend(sts); rep.oracles.push(or); }
+            _ => { let (sts, or) = parse_streams(driver, seed, case, case + 1, &mut render_st); rep.streams.extend(sts); rep.oracles.push(or); rep.streams.push(render_st); }
+        }
+        return rep;
+    }
+    let k: u64 = if thorough { 60 } else { 1 };
+    // oracles: witnesses first
+    let mut den = Oracle::new("c03.denotes");
+    run_witnesses(&mut den, &denotes_witnesses(), "c03.witness.denotes", None);
+    let mut sq = Oracle::new("c03.sequence");
+    run_witnesses(&mut sq, &sequence_witnesses(), "c03.witness.sequence", None);
+
+    rep.streams.extend(class_streams(driver));
+    rep.streams.extend(word_streams(driver, thorough));
+    rep.streams.push(lexops_stream(driver, seed, 6000 * k));
+    rep.streams.extend(tok_streams(driver, seed, 4000 * k));
+    rep.streams.push(utf8_stream(driver, seed, 6000 * k));
+    rep.streams.push(floattext_stream(driver, if thorough { 6 } else { 4 }));
+    rep.notes.push("c03.floattext validates an ASSUMPTION of the model, not a theorem: `Env.parseReal` (= str::parse::<f32>, std code outside the model) accepts exactly the texts `validFloatText` accepts among all texts over `+-.0123456789` up to the stated length".into());
+    rep.streams.extend(str_streams(driver, seed, 0, 4000 * k, 2000 * k, &mut den));
+    let (sts, or) = parse_streams(driver, seed, 0, 6000 * k, &mut render_st);
+    rep.streams.extend(sts);
+    merge_oracle(&mut den, or);
+    let (st, or) = seq_streams(driver, seed, 0, 2500 * k, &mut render_st);
+    rep.streams.push(st);
+    merge_oracle(&mut sq, or);
+    rep.streams.push(render_st);
+    rep.streams.push(mutated_stream(driver, seed, 3000 * k));
+    rep.notes.push("the cursor of `parse_stream` (mode stm) cannot be observed through the public API: value only".into());
+    rep.oracles.push(den);
+    rep.oracles.push(sq);
+    rep
+}
+
+/// folds the counters of `b` into `a` (same oracle computed in parts)
+pub fn merge_oracle(a: &mut Oracle, b: Oracle) {
+    a.cases += b.cases;
+    a.distinct_nontrivial += b.distinct_nontrivial;
+    for f in b.failures { if a.failures.len() < 50 { a.failures.push(f); } }
+    for s in b.samples { if a.samples.len() < 6 { a.samples.push(s); } }
+    for (k, v) in b.histogram { *a.histogram.entry(k).or_insert(0) += v; }
+}
